@@ -221,6 +221,9 @@ class RegionMask:
                 weighted_cutout = cutout * self.data
 
             # fill values outside of the mask but within the bounding box
+            if isinstance(weighted_cutout, u.Quantity):
+                # a bare number cannot be assigned into a Quantity array
+                fill_value = u.Quantity(fill_value, weighted_cutout.unit)
             weighted_cutout[self._mask] = fill_value
 
             return weighted_cutout
